@@ -143,6 +143,57 @@ def impl_cases(payload):
     return out
 
 
+def impl_long(payload):
+    """Long inputs (around 2^16, 2^18, 2^20 elements and beyond), in a process whose numba thread pool an earlier library call
+    has resized (tsc_parallel, calc_power, the HOD kernels all call numba.set_num_threads and never restore it).  Judged
+    in-process against numpy.cumsum in the output dtype."""
+    import numba
+    import numpy as np
+    from abacusnbody.util import cumsum
+    from vlib.implrun import classify
+    out = []
+    for c in payload['cases']:
+        rs = np.random.RandomState(c['seed'])
+        N = c['N']
+        arr = rs.randint(0, 1000, N).astype(c['din'])
+        ini, fin = c['initial'], c['final']
+        L = N - 1 + int(ini) + int(fin)
+        o = np.full(L, 7, dtype=c['dout'])
+        rec = {'problems': []}
+        try:
+            numba.set_num_threads(min(c['pool'], numba.config.NUMBA_NUM_THREADS))
+            tot = cumsum(arr, o, initial=ini, final=fin, offset=c['offset'])
+            sums = np.concatenate([[c['offset']], c['offset'] + np.cumsum(arr.astype(np.int64))])
+            sel = sums if fin else sums[:-1]
+            sel = sel if ini else sel[1:]
+            if int(tot) != int(sums[-1]):
+                rec['problems'].append(f'returned total {int(tot)} != {int(sums[-1])}')
+            bad = np.nonzero(o.astype(np.int64) != sel)[0]
+            if len(bad):
+                k = int(bad[0])
+                rec['problems'].append(f'out[{k}] = {int(o[k])}, numpy.cumsum gives {int(sel[k])} ({len(bad)} of {L} entries differ)')
+            rec['class'] = 'ok'
+        except Exception as e:  # noqa: BLE001
+            rec['class'] = classify(e)
+            rec['problems'].append('raised ' + repr(e)[:160])
+        out.append(rec)
+    return out
+
+
+def long_cases(ctx):
+    rng = ctx.rng
+    Ns = [65535, 65536, 65537, 262143, 262144, 262145, 300001, (1 << 20) + 3]
+    if not ctx.quick():
+        Ns += [(1 << 17) + 1, (1 << 19), (1 << 21) + 5, (1 << 22) + 1, 5000011]
+    out = []
+    for N in Ns:
+        for pool in ((1, 3, 16) if ctx.quick() else (1, 2, 3, 5, 8, 16)):
+            din, dout = rng.choice([('uint32', 'uint64'), ('int64', 'int64'), ('int32', 'int64'), ('uint32', 'int64')])
+            out.append({'N': N, 'pool': pool, 'din': din, 'dout': dout, 'initial': rng.random() < 0.5, 'final': rng.random() < 0.5,
+                        'offset': rng.choice([0, 5, 1 << 33]), 'seed': rng.randrange(1 << 30)})
+    return out
+
+
 def oracle(c):
     """The property, stated independently with Python integers (numpy.cumsum semantics)."""
     N = len(c['arr'])
@@ -232,6 +283,28 @@ def explore(ctx):
                     'accumulation in the output precision (numpy.cumsum)', 'input': c, 'impl_result': got, 'expected': exp,
                     'mode': mode, 'predicate': 'out == select(initial, final, numpy.cumsum in the output dtype), bit for bit'})
     dist['float_cases'] = len(fcases)
+    # long inputs under resized thread pools
+    lcases = long_cases(ctx)
+    dist['long_cases'] = len(lcases)
+    dist['long_lengths'] = sorted({c['N'] for c in lcases})
+    for tag, envx in (('compiled', None), ('boundscheck', {'NUMBA_BOUNDSCHECK': '1'})):
+        if tag == 'boundscheck' and not ctx.quick():
+            continue
+        sub = lcases if tag == 'compiled' else [c for c in lcases if c['N'] <= 300001]
+        try:
+            lres = ctx.run_impl('harness.c19', 'impl_long', {'cases': sub}, envx)
+        except RuntimeError as e:
+            ctx.notes.append(f'long-input stage ({tag}) died: {str(e)[:200]}')
+            counterexamples.append({'key': 'cumsum:long:died', 'what': f'the interpreter died in the long-input stage ({tag})',
+                                    'input': dict(sub[0], long=True), 'impl_result': str(e)[:200], 'expected': 'numpy.cumsum', 'mode': tag,
+                                    'predicate': 'out == select(initial, final, numpy.cumsum in the output dtype)'})
+            continue
+        for c, g in zip(sub, lres):
+            if g['problems'] and not any(v['key'].startswith('cumsum:long') for v in counterexamples):
+                counterexamples.append({
+                    'key': f"cumsum:long:N={c['N']}:pool={c['pool']}", 'what': f'cumsum ({tag}) of {c["N"]} elements with a numba thread pool of '
+                    f'{c["pool"]}: ' + g['problems'][0], 'input': dict(c, long=True), 'impl_result': g, 'expected': 'numpy.cumsum', 'mode': tag,
+                    'predicate': 'out == select(initial, final, numpy.cumsum in the output dtype)'})
 
     mismatches = []
     if ctx.model_available:
@@ -250,10 +323,11 @@ def explore(ctx):
     pyf_dis = sum(1 for i, c in enumerate(cases) if modes['py_func'][i] is not None
                   and not same(modes['py_func'][i], oracle(c)))
     return {
-        'evaluations': len(cases) * 3 + 2 * len(fcases), 'distinct_nontrivial': len(nontrivial),
+        'evaluations': len(cases) * 3 + 2 * len(fcases) + len(lcases), 'distinct_nontrivial': len(nontrivial),
         'rule': 'structured enumeration: N in 0..%d x 4 flag pairs x len(out) in N_out-2..N_out+2 x offsets {0,5,2^33} x '
                 'dtype pairs (rejected lengths sampled over dtypes); each case run compiled, compiled+NUMBA_BOUNDSCHECK=1 '
-                'and py_func; non-trivial = accepted length and N >= 2, distinct by (N, flags, offset, dtypes)'
+                'and py_func; long inputs (2^16 .. 2^20 and beyond, integer dtype pairs) under numba thread pools of 1..16, judged '
+                'against numpy.cumsum; non-trivial = accepted length and N >= 2, distinct by (N, flags, offset, dtypes)'
                 % (12 if ctx.quick() else 40),
         'samples': [{'input': cases[i], 'impl': modes['compiled'][i]} for i in (0, len(cases) // 2, len(cases) - 1)],
         'traces_validated_against_impl': len(terms) if ctx.model_available else 0,
@@ -279,6 +353,9 @@ def search(ctx, broken):
 
 def replay(ctx, rec):
     c = rec['input']
+    if c.get('long'):
+        g = ctx.run_impl('harness.c19', 'impl_long', {'cases': [c]}, {'NUMBA_BOUNDSCHECK': '1'} if rec.get('mode') == 'boundscheck' else None)[0]
+        return bool(g['problems']), {'input': c, 'impl_result': g}
     exp = float_oracle(c) if c.get('fl') else oracle(c)
     got = {'compiled': ctx.run_impl('harness.c19', 'impl_cases', {'cases': [c]})[0],
            'boundscheck': ctx.run_impl('harness.c19', 'impl_cases', {'cases': [c]}, {'NUMBA_BOUNDSCHECK': '1'})[0]}
